@@ -83,6 +83,18 @@ CHECKS = {
    text="Generated programs that create closures per sample are run for 2N samples on the VM; the numbers of live closures and heap objects after sample N and after sample 2N must be equal, no closure handle may be used after release (hook assertion) and no retain/release may hit an invalid heap handle (log sink).",
    note="VM only. Boxed recursive variants and scheduled tasks are not generated. Two open leak findings (lambda passed as argument, closure returned by a call inside dsp) are switched off in the generator and pinned by replay.",
    design="2.C12"),
+ "C15": dict(
+   category="exploration",
+   technique="differential testing of compilation artefacts across repetitions, generated compilation histories and fresh processes",
+   text="Every shipped source (exhaustive) and generated programs are compiled three times inside a worker that has already compiled other cases, with 0-4 other programs (generated, shipped, broken) compiled in between, and once in a fresh child process with different hash seeds; bytecode listing, WASM bytes, state layouts, I/O channels and the outputs of 8 samples on both runtimes are compared byte for byte.",
+   note="The MIR listing is not compared (it prints interner ids of argument symbols and is not among the artefacts the statement names). Program shapes of the VM finding that yields run-to-run different outputs are switched off with the other C01 switches.",
+   design="2.C15"),
+ "C16": dict(
+   category="exploration",
+   technique="metamorphic testing: one generated AST rendered canonically and under composed meaning-preserving transformations (renaming incl. compiler-like names, parentheses, annotations, comments, whitespace)",
+   text="Each generated program is rendered twice from the same AST - canonically and after a random composition of a consistent injective renaming of all user identifiers (ordinary, odd and compiler-generated-looking names), redundant parentheses, annotations with the generator's own types, comments, indentation and blank lines - and both are compiled and run on the VM: accept/reject and every output word must agree.",
+   note="Record field names are not renamed; line breaks are only varied between statements and inside blocks. Three open findings (feed_idN, _mimium_global, parenthesised records/lambdas) are excluded from the transformation pool and pinned by replays.",
+   design="2.C16"),
 }
 
 NOT_YET = {
